@@ -55,6 +55,25 @@ CHECKS.update({
              'are attributed to it.'),
 })
 
+CHECKS.update({
+    'C17': dict(technique='TLA+ definitions of the forty metrics and of the report contract (FMMetrics.tla) evaluated by TLC on TLC-enumerated '
+                          'models; recorded Exec(metrics) events (unfiltered, filtered, repeated on one object) judged by trace validation',
+        design_ref='DESIGN.md section 8 (C17)',
+        text='All trees up to N features (all kinds, several relations per parent, abstract flags, one depth-1 constraint): the report must be '
+             'produced, contain exactly the expected metric names once (with a filter: exactly the filtered ones), size = length, each ratio = '
+             'size/size-of-base within rounding, the eight splitting identities on the implementation listings, each metric equal to its TLA+ '
+             'definition, and agree with the stand-alone operations executed in the same event.'),
+    'C19': dict(technique='TLA+ history generator (FMHist.tla): TLC enumerates every call sequence of length <= MaxLen over a model pool per '
+                          'operation kind, and the GenAttr parameter space; replayed on real operation objects; trace validation with a memo '
+                          'of (operation, argument, model) -> result over the whole history',
+        design_ref='DESIGN.md section 8 (C19)',
+        text='For each of the ten analysis operations every sequence of up to MaxLen executions over a six-model pool on ONE object, interleaved '
+             'with another object, after a fresh-object baseline: the model projection must be unchanged by every call and equal '
+             '(operation, argument, model) must give equal results over the history. Random attribute generation: every domain shape x '
+             'leaves-only x seed x pool model; TLC checks exactly-one-added, value in domain (integer for integer bounds), untouched rest, '
+             'and FlamaException for an unset domain.'),
+})
+
 REASON_TODO = 'check not built yet (build in progress; see DESIGN.md section 12)'
 
 
